@@ -296,6 +296,9 @@ func TestVerif_C03_Kill(t *testing.T) {
 				rec.Label("kill:between-ops")
 			}
 			_ = done
+			// classify and list the directory the dead process left BEFORE the restart cleans it up
+			sigIfWrong := c03Sig(task.Dir, "fast-path")
+			left := vcrash.Listing(task.Dir)
 			res := c03Restart(task.Dir, nil)
 			if res.err != nil {
 				if errors.Is(res.err, errC03Infra) {
@@ -306,7 +309,7 @@ func TestVerif_C03_Kill(t *testing.T) {
 				if rec.KnownHit(sig, "node does not restart after a kill") {
 					continue
 				}
-				rt.Fatalf("%s", rec.Violation(sig, "history {%s}, %s (in flight: %s): restart failed at %s: %v; directory: %s", h.canon(), tag, c03KindOf(all, inflight), res.stage, res.err, vcrash.Listing(task.Dir)))
+				rt.Fatalf("%s", rec.Violation(sig, "history {%s}, %s (in flight: %s): restart failed at %s: %v; directory: %s", h.canon(), tag, c03KindOf(all, inflight), res.stage, res.err, left))
 			}
 			rec.Label("kill:restart=" + res.path)
 			want := modelOf(set)
@@ -320,15 +323,15 @@ func TestVerif_C03_Kill(t *testing.T) {
 					continue
 				}
 			}
-			sig := "C03/kill/" + strings.TrimPrefix(c03Sig(task.Dir, res.path), "C03/")
-			if sig == "C03/kill/"+strings.TrimPrefix(c03KnownFingerprint, "C03/") {
+			sig := "C03/kill/content-differs/" + res.path
+			if res.path == "fast-path" && sigIfWrong == c03KnownFingerprint {
 				sig = c03KnownFingerprint
 			}
 			if rec.KnownHit(sig, c03KnownWhat) {
 				continue
 			}
 			rt.Fatalf("%s", rec.Violation(sig, "history {%s}, %s (in flight: %s, restart via %s): database after restart matches neither the acknowledged operations nor those plus the one in flight; directory: %s\n--- want (acknowledged)\n%s--- got\n%s",
-				h.canon(), tag, c03KindOf(all, inflight), res.path, vcrash.Listing(task.Dir), c03Short(want), c03Short(res.dump)))
+				h.canon(), tag, c03KindOf(all, inflight), res.path, left, c03Short(want), c03Short(res.dump)))
 		}
 	})
 }
